@@ -207,6 +207,7 @@ func (l *Listener) Accept() (net.Conn, error) {
 		if len(l.queue) > 0 {
 			c := l.queue[0]
 			l.queue = l.queue[1:]
+			c.accepted = true
 			l.n.mu.Unlock()
 			return c, nil
 		}
@@ -301,6 +302,7 @@ type Conn struct {
 	laddr, raddr simAddr
 	closed       bool
 	linger0      bool
+	accepted     bool // handed to the application by Listener.Accept (the dialling end counts as accepted)
 	rdl, wdl     time.Time
 	rtimer       *time.Timer
 	wtimer       *time.Timer
@@ -739,6 +741,16 @@ func (c *Conn) SetLinger(sec int) error {
 	c.linger0 = sec == 0
 	n.mu.Unlock()
 	return nil
+}
+
+// Accepted reports whether this end was handed to an application: the dialling end always, the
+// listening end once Listener.Accept returned it. A connection still in the accept queue when
+// its listener closes is reset by the (simulated) kernel and was never the application's to close.
+func (c *Conn) Accepted() bool {
+	n := c.link.net
+	n.mu.Lock()
+	defer n.mu.Unlock()
+	return c.side == "A" || c.accepted
 }
 
 // IsClosed reports whether Close was called on this end.
